@@ -47,6 +47,12 @@ def _child(plan, wfd):
 
     seen = {"onb": 0}
 
+    def unsafe_now():
+        d = world.device
+        v = tuple(d.app_version)
+        supported = v[0] == 5 and (v[1] < 4 or (v[1] == 4 and v[2] <= 1))
+        return d.mode != MODE_SIGNER or not supported or not d.onboarded
+
     def fault_hook(w, apdu, idx):
         if state["k"] < 0:
             # start-up: the environment's answer to the first onboarded query / the retries query
@@ -59,6 +65,10 @@ def _child(plan, wfd):
             return None
         if state.get("skip", 0) > 0:
             state["skip"] -= 1
+            bf = state.get("bringup_fault")
+            if bf is not None and 4 - state["skip"] == bf["at"]:
+                state["bringup_fault"] = None
+                return tuple(bf["spec"])
             return None
         i = state.get("cmd_i", 0)
         state["cmd_i"] = i + 1
@@ -82,6 +92,7 @@ def _child(plan, wfd):
         step = plan["reqs"][k] if k < len(plan["reqs"]) else {}
         state["skip"], state["cmd_i"] = 0, 0
         state["fault"] = step.get("fault")
+        state["bringup_fault"] = step.get("bringup_fault")
         world.on_event = base_on_event
         if step.get("then_mode") is not None:
             # the device changes mode right after the faulted exchange of this request
@@ -89,10 +100,16 @@ def _child(plan, wfd):
 
             def on_event(ev):
                 if ev["ev"] == "apdu" and ev.get("fault") in ("write", "read"):
-                    world.device.mode = tgt
+                    if tgt == "unsupported_app":
+                        world.device.app_version = (5, 5, 0)      # comes back running a signer the manager must not serve
+                    else:
+                        world.device.mode = tgt
                 base_on_event(ev)
             world.on_event = on_event
-        return orig_handle(self, client_address, rfile, wfile)
+        try:
+            return orig_handle(self, client_address, rfile, wfile)
+        finally:
+            emit({"k": "reqend", "req": k, "unsafe": bool(unsafe_now())})
     cs._RequestHandler.handle = handle
     orig_sd = cs._TCPServerRequestHandler.shutdown
 
@@ -197,12 +214,28 @@ def concrete_step(cause, rng, v1):
     raise ValueError(cause)
 
 
+def unsafe_repair_history(rng, v1):
+    """Three requests: a link error after which the device is no longer one to serve from (it comes back running
+    an unsupported signer, or in another app); the next request's repair is cut short by a time-out inside the
+    repeated bring-up; a third request. Whatever is answered, no command may succeed on that device."""
+    ver = 1 if v1 else 5
+    cmd = "getPubKey"
+    mk = lambda: json.dumps(reqs.make(cmd, random.Random(rng.random()), ver)[0]).encode()   # noqa: E731
+    tgt = rng.choice(["unsupported_app", "unsupported_app", MODE_UIHB])
+    return [("unsafe", mk(), {"fault": {"at": 0, "spec": [rng.choice(["write", "read"])]}, "then_mode": tgt}, cmd),
+            # (the time-out comes before the exchange whose answer would reveal the state: the mode query for another
+            # app, the mode or version query for an unsupported signer)
+            ("timeout", mk(), {"bringup_fault": {"at": 2 if tgt == MODE_UIHB else rng.choice([2, 3]), "spec": ["timeout"]}}, cmd),
+            ("unsafe!", mk(), {}, cmd),
+            ("unsafe!", mk(), {}, cmd)]
+
+
 GOOD_ENV = {"onb": "yes", "mode1": "signer", "uiver": [5, 4, 1], "echo": "t", "retries": 3, "unlock": "t",
             "newpin": "ack", "mode2": "signer", "appver": [5, 4, 1]}
 
 
 def run_lifetime(scratch, tag, should, causes, v1, rng, start_env=None, plat="ledger", client_lines=None,
-                 variant=None):
+                 variant=None, explicit=None):
     """Fork one manager process. Returns (events, info)."""
     env.setup()
     e = dict(GOOD_ENV)
@@ -239,7 +272,18 @@ def run_lifetime(scratch, tag, should, causes, v1, rng, start_env=None, plat="le
             e.update(mode1="boot")       # starts locked: unlock, exit to the signer, then serve
     steps, lines_, labels = [], [], []
     given = list(client_lines or [])
-    for c in causes:
+    touches = []
+    if explicit is not None:
+        causes = [x[0] for x in explicit]
+    for ci, c in enumerate(causes):
+        if explicit is not None:
+            _, line, step, label = explicit[ci]
+            lines_.append(line)
+            steps.append(step)
+            labels.append(label)
+            touches.append(True)
+            continue
+        touches.append(False)
         if c == "client" and given:
             label, line = given.pop(0)
             lines_.append(line)
@@ -293,7 +337,7 @@ def run_lifetime(scratch, tag, should, causes, v1, rng, start_env=None, plat="le
         if stopped:
             break
         obs = client_request(port, line)
-        obs.update(k="conn", cause=causes[i] if not (causes[i] == "unsafe") else "linkfault", stopreq=False)
+        obs.update(k="conn", cause={"unsafe": "linkfault", "unsafe!": "unsafe"}.get(causes[i], causes[i]), stopreq=False)
         events.append(obs)
         # did the manager decide to stop while handling this request? (the child says so before the
         # connection is closed, so the line is already in the pipe)
@@ -310,6 +354,8 @@ def run_lifetime(scratch, tag, should, causes, v1, rng, start_env=None, plat="le
                     stopped = True
                 if cev["k"] == "repair":
                     obs["repair"] = True
+                if cev["k"] == "reqend":
+                    obs["unsafe"] = bool(cev["unsafe"]) and touches[i]
                 if cev["k"] == "exit":
                     exited = True
         except (BlockingIOError, TypeError):
@@ -334,7 +380,7 @@ def run_lifetime(scratch, tag, should, causes, v1, rng, start_env=None, plat="le
         full.append({"k": ev["k"], "should": bool(ev.get("should", False)), "cause": ev.get("cause", "client"),
                      "connected": bool(ev.get("connected", True)), "onereply": bool(ev.get("onereply", True)),
                      "hascode": bool(ev.get("hascode", True)), "code": int(ev.get("code", 0)),
-                     "stopreq": bool(ev.get("stopreq", False))})
+                     "stopreq": bool(ev.get("stopreq", False)), "unsafe": bool(ev.get("unsafe", False))})
     # a request during which the pending repair ran against a device that had become unsafe is
     # attributed to "unsafe" (what the environment did), whatever the request itself was
     pending_unsafe = False
